@@ -12,6 +12,7 @@ import (
 	"github.com/vapourismo/knx-go/knx"
 	"github.com/vapourismo/knx-go/knx/cemi"
 	"github.com/vapourismo/knx-go/knx/knxnet"
+	"github.com/vapourismo/knx-go/knx/util"
 	"github.com/vapourismo/knx-go/verifmc/mc"
 	"github.com/vapourismo/knx-go/verifmc/vnet"
 	"verifh/harness/h"
@@ -299,8 +300,23 @@ func c16Items() []c16Item {
 	}
 }
 
-func c16History(tcp bool, L int) func() {
+// nullLogger is a log target that discards (the library formats the message all the same).
+type nullLogger struct{}
+
+func (nullLogger) Printf(format string, args ...interface{}) {}
+
+func c16History(tcp bool, L int) func() { return c16HistoryLog(tcp, L, false) }
+
+// c16HistoryLog: with logChoice the environment also decides whether the application has installed
+// a log target (util.Logger): the receiver's error paths then format their messages - code that runs
+// on malformed input only and only with that option.
+func c16HistoryLog(tcp bool, L int, logChoice bool) func() {
 	return func() {
+		util.Logger = nil
+		if logChoice && mc.Choose(2, mc.Free) == 1 {
+			util.Logger = nullLogger{}
+			defer func() { util.Logger = nil }()
+		}
 		items := c16Items()
 		n := 1 + mc.Choose(L, mc.Free)
 		var seq []c16Item
@@ -770,10 +786,10 @@ func init() {
 	reg("both", "C15-udp-senders-3x2", "C15", 2, 2, c16Senders(false, 3, 2), false)
 	reg("both", "C15-tcp-senders-3x2", "C15", 2, 2, c16Senders(true, 3, 2), false)
 	// the history half of C01 shares the scenarios (registered under C01's own names)
-	reg("both", "C01-udp-receiver-histories-L3", "C01", 0, -1, c16History(false, 3), false)
-	reg("both", "C01-tcp-receiver-histories-L3", "C01", 0, -1, c16History(true, 3), false)
-	reg("thorough", "C01-udp-receiver-histories-L4", "C01", 0, -1, c16History(false, 4), false)
-	reg("thorough", "C01-tcp-receiver-histories-L4", "C01", 0, -1, c16History(true, 4), false)
+	reg("both", "C01-udp-receiver-histories-L3", "C01", 0, -1, c16HistoryLog(false, 3, true), false)
+	reg("both", "C01-tcp-receiver-histories-L3", "C01", 0, -1, c16HistoryLog(true, 3, true), false)
+	reg("thorough", "C01-udp-receiver-histories-L4", "C01", 0, -1, c16HistoryLog(false, 4, true), false)
+	reg("thorough", "C01-tcp-receiver-histories-L4", "C01", 0, -1, c16HistoryLog(true, 4, true), false)
 	// "the outcome is a function of the input bytes alone" for bytes that reach the decoder through
 	// the stream receiver: the same frames, however the stream is cut into segments
 	reg("both", "C01-tcp-receiver-2cuts-upto2frames", "C01", 0, -1, c16TCPSeg(0, 2), false)
